@@ -9,5 +9,5 @@ run_one() {
   echo "$(basename $d) $r" >> /tmp/wip/seed_regression.txt
 }
 export -f run_one
-ls -d /verif/seeded/C*-m* | xargs -P $jobs -I{} bash -c 'run_one {}'
+ls -d /verif/seeded/${SEEDS_GLOB:-C*}-m* | xargs -P $jobs -I{} bash -c 'run_one {}'
 sort $out; echo "caught: $(grep -c 'exit 1' $out) / $(wc -l < $out)"
